@@ -12,6 +12,17 @@ package bt
 //@   ensures[C10.upper_inc] (=> (< v 18446744073709551615) (= result (- (spec.vlen (+ v 1)) (spec.vlen v))))
 //@   ensures[C10.upper_inc_top] (=> (= v 18446744073709551615) (= result (- 1)))
 
+//@ func bt.VarInt.Bytes
+//@   fresh result
+//@   ensures[C01.varint_bytes_len] (= (len result) (spec.vlen v))
+//@   ensures[C01.varint_bytes] (= (bytes result 9) (spec.vi v))
+
+//@ func bt.LittleEndianBytes
+//@   bytes token
+//@   requires (>= l 4)
+//@   fresh result
+//@   ensures[C01.le_bytes] (and (= (len result) l) (= (bytes result) (bcat (le32 v) (bzeros (- l 4)))))
+
 //@ func bt.ReverseBytes
 //@   bytes array
 //@   fresh result
